@@ -10,6 +10,10 @@ Universe == << aTxt, ATXT, bMap, bTxt >>
 Upper(s) == [i \in 1..Len(s) |-> IF s[i] >= 97 /\ s[i] <= 122 THEN s[i] - 32 ELSE s[i]]
 Queries == << aTxt, ATXT, DotSlash \o aTxt, bMap, Upper(bMap), DotSlash \o Upper(bMap), bTxt, Upper(bTxt), cTrk, Upper(cTrk), <<47>> \o aTxt, <<113>> >>
 ExtTxt == <<46,116,120,116>>   ExtMap == <<46,109,97,112>>
+Pat(k, t) == [kind |-> k, text |-> t]
+\* "root" and "s" occur in the directory part of the sandbox path but in no file name: a pattern evaluated on the path would match everything
+Patterns == << Pat("prefix", <<97>>), Pat("suffix", <<46,116,120,116>>), Pat("contains", <<98,46>>), Pat("exact", aTxt), Pat("contains", <<118,111,108>>),
+               Pat("prefix", <<120>>), Pat("contains", <<114,111,111,116>>), Pat("suffix", <<84,88,84>>), Pat("prefix", <<47>>), Pat("exact", <<99>>) >>
 \* a layout is chosen by a subset of places for each universe name, plus whether the CLM track exists and a loose "c"
 Emit(id, steps) == PrintT("S|" \o ToJson([id |-> id, steps |-> steps]))
 Blob(i) == i
@@ -31,9 +35,10 @@ Next == /\ ~done /\ done' = TRUE
                     [order |-> [i \in 1..Len(archives) |-> archives[i].file],
                      res |-> [i \in 1..Len(Queries) |-> [withArch |-> Resolve(L, Queries[i], TRUE), noArch |-> Resolve(L, Queries[i], FALSE),
                                                           containing |-> IF IsRooted(Queries[i]) THEN <<63>> ELSE ContainingArchive(L, Queries[i])]],
+                     pats |-> [i \in 1..Len(Patterns) |-> [withArch |-> ListByPattern(L, Patterns[i], TRUE), noArch |-> ListByPattern(L, Patterns[i], FALSE)]],
                      txt |-> ListOfType(L, ExtTxt, TRUE), txtLoose |-> ListOfType(L, ExtTxt, FALSE), map |-> ListOfType(L, ExtMap, TRUE)]
                  rev == [i \in 1..Len(vols) |-> vols[Len(vols) + 1 - i]]
-             IN Emit(<<pl, clm, looseC>>, << [op |-> "resmgr", loose |-> loose, vols |-> vols, clms |-> clms, queries |-> Queries,
+             IN Emit(<<pl, clm, looseC>>, << [op |-> "resmgr", loose |-> loose, vols |-> vols, clms |-> clms, queries |-> Queries, patterns |-> Patterns,
                                               answers |-> << Answers(vols \o clms), Answers(rev \o clms) >>] >>)
 Spec == Init /\ [][Next]_done
 ====
